@@ -608,3 +608,14 @@ def replay_density():
     d = abs(elec_energy(Pm, Fq, H).item() - 0.5 * (Pm * (hf + Fq)).sum().item())
     print("replay density: P block", Pb.tolist(), "energy functional deviation %.3e" % d)
     return bad or d > 1e-10
+
+
+# ---- shared obligation: SP2 purification multiplies the full packed Fock matrix: it only returns (and returns a symmetric idempotent density) if packing preserves the physical block exactly ----
+from . import C05 as _C05_mod  # noqa: E402
+
+
+@obligation(PID, "h", title="[shared with C05.g] " + [e for e in __import__("engine.ob", fromlist=["REGISTRY"]).REGISTRY["C05"] if e[1] is _C05_mod.ob_g][0][3])
+def ob_h_shared(ob):
+    """SP2 purification multiplies the full packed Fock matrix: it only returns (and returns a symmetric idempotent density) if packing preserves the physical block exactly"""
+    ob.note("this obligation is the one registered as C05.g; it is also decided here because SP2 purification multiplies the full packed Fock matrix: it only returns (and returns a symmetric idempotent density) if packing preserves the physical block exactly")
+    _C05_mod.ob_g(ob)
